@@ -96,27 +96,27 @@ type Addr struct {
 
 // Frame holds the per-invocation maps (the function under proof, or an inlined callee).
 type Frame struct {
-	fn       *ssa.Function
-	vals     map[ssa.Value]Term
-	tuples   map[ssa.Value][]Term
-	addrs    map[ssa.Value]*Addr
-	out      map[*ssa.BasicBlock]*State
-	reach    map[*ssa.BasicBlock]Term
-	edgeCond map[[2]int]Term
-	entry    *State
-	parent   *Frame
-	prefix   string // label prefix for inlined obligations
-	params   map[string]Term
-	ptypes   map[string]types.Type
-	rets     []retInfo
-	headerSt map[*ssa.BasicBlock]*State // state right after havoc+assume at loop header
-	headerV0 map[*ssa.BasicBlock][]Term // variants at header
-	labelCnt map[string]int
-	mon      *MonitorCtx
-	iterOf   map[*ssa.BasicBlock]Term // rangeindex loops: iterations completed at header
-	mapRange map[ssa.Value]*mapRangeInfo
-	curSt    *State
-	curBlock *ssa.BasicBlock
+	fn         *ssa.Function
+	vals       map[ssa.Value]Term
+	tuples     map[ssa.Value][]Term
+	addrs      map[ssa.Value]*Addr
+	out        map[*ssa.BasicBlock]*State
+	reach      map[*ssa.BasicBlock]Term
+	edgeCond   map[[2]int]Term
+	entry      *State
+	parent     *Frame
+	prefix     string // label prefix for inlined obligations
+	params     map[string]Term
+	ptypes     map[string]types.Type
+	rets       []retInfo
+	headerSt   map[*ssa.BasicBlock]*State // state right after havoc+assume at loop header
+	headerV0   map[*ssa.BasicBlock][]Term // variants at header
+	labelCnt   map[string]int
+	mon        *MonitorCtx
+	iterOf     map[*ssa.BasicBlock]Term // rangeindex loops: iterations completed at header
+	mapRange   map[ssa.Value]*mapRangeInfo
+	curSt      *State
+	curBlock   *ssa.BasicBlock
 	headerFlag map[*ssa.BasicBlock]Term
 }
 
@@ -137,21 +137,21 @@ type mapRangeInfo struct {
 }
 
 type FuncEnc struct {
-	eng      *Engine
-	fn       *ssa.Function
-	name     string
-	con      *Contract
-	items    []Item
-	nsym     int
-	obls     []*Obl
-	declared map[string]bool
-	cur      *Frame
-	depth    int
-	inlined  map[string]bool
-	trusted  map[string]bool // stubs used
-	assumes  map[string]bool // notes for evidence
-	inputs   []ModelInput
-	props    []string
+	eng       *Engine
+	fn        *ssa.Function
+	name      string
+	con       *Contract
+	items     []Item
+	nsym      int
+	obls      []*Obl
+	declared  map[string]bool
+	cur       *Frame
+	depth     int
+	inlined   map[string]bool
+	trusted   map[string]bool // stubs used
+	assumes   map[string]bool // notes for evidence
+	inputs    []ModelInput
+	props     []string
 	bvOffsets map[string]bvOffset
 	consts    map[string]bool
 	defAt     map[string]int
